@@ -346,13 +346,25 @@ class SymStr:
                 i += 1
         return SymStr(out, self.kind)
 
+    def _in_set(self, cell, chars):
+        if chars is None:
+            chars = ' \t\n\r\x0b\x0c'
+        return s_or(*[cell_eq(cell, ch) for ch in (chars if isinstance(chars, str) else [chr(b) for b in chars])])
+
+    def lstrip(self, chars=None):
+        cells = list(self.cells)
+        while cells and self._in_set(cells[0], chars):          # forks on the content of the leading characters
+            cells.pop(0)
+        return SymStr(cells, self.kind)
+
+    def rstrip(self, chars=None):
+        cells = list(self.cells)
+        while cells and self._in_set(cells[-1], chars):
+            cells.pop()
+        return SymStr(cells, self.kind)
+
     def strip(self, chars=None):
-        if any(not isinstance(c, str) for c in self.cells[:1] + self.cells[-1:]):
-            raise Unsupported('strip on symbolic characters')
-        c = self.concrete() if all(isinstance(x, str) for x in self.cells) else None
-        if c is not None:
-            return SymStr.of(c.strip(chars), self.kind)
-        raise Unsupported('strip on symbolic characters')
+        return self.rstrip(chars).lstrip(chars)
 
     # -- format(value, spec): fill/align only
     def __sformat__(self, spec):
